@@ -231,6 +231,68 @@ def run_iter(ctx, pid, run, idx, replay, BUILD, ROOT):
     return res
 
 
+def run_cache(ctx, pid, run, idx, replay, BUILD, ROOT):
+    out = os.path.join(ctx.rundir, "cache%d" % idx)
+    os.makedirs(out, exist_ok=True)
+    n = run["n"][ctx.tier]
+    cmd = [os.path.join(BUILD, "harness"), "cache", "-seed", str(ctx.seed + 1000 * idx), "-n", str(n), "-out", out,
+           "-stress", str(run["stress"][ctx.tier])]
+    rc, log = sh(cmd, timeout=7200)
+    res = {"failing": [], "diffs": [], "coverage": {}}
+    if rc not in (0, 4):
+        res["diffs"].append({"correspondence": "cache", "error": "harness failed: " + log[-500:]})
+        return res
+    with open(os.path.join(out, "cases.txt")) as f:
+        cases = f.read()
+    rc, model = sh([os.path.join(BUILD, "modelrun")], inp=cases, timeout=3600)
+    open(os.path.join(out, "model.txt"), "w").write(model)
+    impl = open(os.path.join(out, "impl.txt")).read().splitlines()
+    model = model.splitlines()
+    cl = cases.splitlines()
+    proj = run.get("project", lambda l: l)
+    ndiff = 0
+    for i in range(min(len(impl), len(model))):
+        a, b = proj(impl[i]), proj(model[i])
+        if a != b:
+            ndiff += 1
+            if len(res["diffs"]) < 20:
+                res["diffs"].append({"correspondence": "statement cache model (coq/Model/Cache.v) vs cache.go + sqlair.go run closures (sequential histories with drops and GC)",
+                                     "case": cl[i], "implementation": a, "model": b})
+    if len(impl) != len(model):
+        res["diffs"].append({"correspondence": "cache", "error": "result counts differ: impl %d model %d" % (len(impl), len(model))})
+    for l in open(os.path.join(out, "oracle.jsonl")):
+        v = json.loads(l)
+        if v["property"] in run.get("oracle_props", [pid]):
+            v["layer"] = "cache"
+            v["case"] = bytes.fromhex(v["query_hex"][1:]).decode()
+            res["failing"].append(v)
+    st = json.load(open(os.path.join(out, "stats.json")))
+    res["coverage"] = {
+        "evaluations": st["cases"] + st["concurrent_stress_runs"], "distinct_nontrivial": st["distinct_nontrivial"],
+        "programs": st["cases"], "disagreements_checked": ndiff,
+        "rule": CACHE_RULE, "samples": st["samples"][:5],
+        "input_distribution": {"op_kinds": st["op_kinds"], "concurrent_stress_runs": st["concurrent_stress_runs"]},
+        "exhaustive": False,
+    }
+    return res
+
+
+CACHE_RULE = ("sequential histories over <=3 Statements x <=3 DBs x 3 argument shapes x 4 contexts: run, open iterator, drop Query, "
+              "finish, drop Statement/DB, cancel, prepare failure, forced garbage collection with finalizer drain (real runtime.GC); "
+              "observables per op: driver prepares/executions with statement identity and context marker, set of closed driver "
+              "statements, cache entry counts (hook); plus concurrent stress runs (8 goroutines, shared Statements/DBs, GC) checked "
+              "by oracles on the driver log; non-trivial iff distinct and more than 5 ops")
+
+
+def proj_cache_events(line):
+    """C09/C20: prepares and executions (statement identity, context) per op"""
+    return " ".join(re.sub(r"closed=\([^)]*\),S\d+D\d+N\d+I\d+", "", f) for f in line.split())
+
+
+def proj_cache_full(line):
+    return line
+
+
 ITER_RULE = ("scripted driver results (0-4 rows, unconvertible rows, fetch failure at any position, failing driver close, "
              "run error, cancelled context) x call sequences over {Next, Get(valid), Get(&Outcome), Get(nil Outcome), "
              "Get(invalid), Close, cancel} of length <= 10, plus Query.Get and Query.GetAll calls with every argument mistake; "
@@ -316,7 +378,7 @@ def run_parse(ctx, pid, run, idx, replay, BUILD, ROOT):
     return res
 
 
-RUNNERS = {"parse": run_parse, "bind": run_bind, "iter": run_iter}
+RUNNERS = {"parse": run_parse, "bind": run_bind, "iter": run_iter, "cache": run_cache}
 
 
 def merge(a, b):
@@ -377,7 +439,16 @@ def iter_run_spec(project, oracle_props, nq=4000, nt=200000):
             "exhaustive": {"quick": 4, "thorough": 6}}
 
 
+def cache_run_spec(project, oracle_props, nq=250, nt=20000):
+    return {"kind": "cache", "n": {"quick": nq, "thorough": nt}, "stress": {"quick": 10, "thorough": 400},
+            "project": project, "oracle_props": oracle_props}
+
+
 PROPS = {
+    "C09": {"runs": [cache_run_spec(proj_cache_events, ["C09"])]},
+    "C10": {"runs": [cache_run_spec(proj_cache_full, ["C10"])]},
+    "C11": {"runs": [cache_run_spec(proj_cache_full, ["C11"])]},
+    "C20": {"runs": [cache_run_spec(proj_cache_events, ["C20"])]},
     "C13": {"runs": [iter_run_spec(proj_iter_account, ["C13"])]},
     "C14": {"runs": [iter_run_spec(proj_iter_full, ["C14"])]},
     "C15": {"runs": [iter_run_spec(proj_iter_c15, ["C15"])]},
